@@ -2,7 +2,7 @@
     answer of the pattern matcher; the only hypothesis is on net/url's results (urlinfo_sound,
     checked by the oracle on every case). *)
 From IV Require Import Base.Bytes Gen.SanitizeConsts Gen.SanitizePolicy Model.Sanitize Model.SanitizePolicy
-  Proofs.SanitizeEscape.
+  Proofs.SanitizeEscape Proofs.SanitizeStyle Proofs.SanitizeFilter.
 
 (* --------------------------------------------------------------------- string facts *)
 
@@ -400,14 +400,16 @@ Theorem sanitized_html_inert : forall (doc : str) (toks : list htoken),
       /\ forallb otoken_inert (bm_tokens toks) = true
       /\ (forall d, In (OText d) (bm_tokens toks) ->
             forall c, In c (render_otoken (OText d)) -> c <> 60 /\ c <> 62 /\ c <> 34 /\ c <> 39)
-      /\ (forall k v, exists v', render_attr (k, v) = [32] ++ k ++ [61; 34] ++ v' ++ [34]
+      /\ (forall n attrs k v,
+            In (OStart n attrs) (bm_tokens toks) \/ In (OSelf n attrs) (bm_tokens toks) -> In (k, v) attrs ->
+            exists v', render_attr (k, v) = [32] ++ k ++ [61; 34] ++ v' ++ [34]
             /\ (forall c, In c v' -> c <> 34 /\ c <> 60 /\ c <> 62 /\ c <> 39 /\ c <> 13)
             /\ unescape esc_x v' = v)).
 Proof.
   intros doc toks H. unfold bm_sanitize. destruct (blank doc) eqn:B; [left; auto|right].
   split; [reflexivity|]. split; [apply bm_run_inert; exact H|]. split.
   - intros d _. apply render_text_clean.
-  - apply render_attr_shape.
+  - intros n attrs k v _ _. apply render_attr_shape.
 Qed.
 
 (** a blank document holds no markup at all *)
@@ -548,4 +550,38 @@ Proof.
   intros toks n attrs v I Iv. unfold bm_tokens in I.
   destruct I as [I|I]; apply bm_run_In in I as [s' [t [It Io]]];
     (destruct (bm_step_style s' t n attrs v) as [a [Ia [K V]]]; [tauto|exact Iv|]); exists t, a; auto.
+Qed.
+
+
+(* ------------------------------- the style clause, composed, with H-tok as an explicit hypothesis *)
+
+Fixpoint item_attrs (items : list item) : list attr :=
+  match items with
+  | [] => []
+  | Raw _ :: r => item_attrs r
+  | Tag _ attrs _ :: r => attrs ++ item_attrs r
+  end.
+
+(** H-tok for style values, as a hypothesis: every style attribute the policy's tokenizer reports
+    on the rewritten document carries a value the start-tag rewriter wrote, i.e. the output of
+    sanitizeStyle on the token list of some style attribute of the original document. (This is
+    what is assumed of x/net/html: tokenising the rewriter's quoted, escaped output reads the
+    value back. It is not provable without a model of the tokenizer.) *)
+Definition H_tok_style (items : list item) (toks2 : list htoken) : Prop :=
+  forall t a, In t toks2 -> In a (t_attrs t) -> a_key a = s_style ->
+    exists key val toks, In (Attr key val toks) (item_attrs items) /\ is_style key = true /\ a_val a = sanitize_style toks.
+
+(** the style clause of C18 over html_model: under H-tok, every style value on a start tag of the
+    final token list is a concatenation of allow-listed declaration groups *)
+Theorem html_style_clause : forall items toks2, H_tok_style items toks2 ->
+  forall n attrs v,
+    In (OStart n attrs) (bm_tokens toks2) \/ In (OSelf n attrs) (bm_tokens toks2) ->
+    In (s_style, v) attrs ->
+    exists ps, v = render ps /\ groups_ok false ps = true /\ (forall p, In (PProp p) ps -> allowed p = true).
+Proof.
+  intros items toks2 H n attrs v I Iv.
+  destruct (style_values_pass_through toks2 n attrs v I Iv) as [t [a [It [Ia [K V]]]]].
+  destruct (H t a It Ia K) as [key [val [toks [_ [_ E]]]]].
+  destruct (style_only_allowed toks) as [ps [R [G P]]].
+  exists ps. split; [congruence|]. split; assumption.
 Qed.
